@@ -184,6 +184,43 @@ def modelStep (st : DState) (fs : List String) : DState × String :=
     | some st' => (st', "ok")
     | none => (st, "bad-op")
 
+/-! ### judging an observed cache history -/
+
+/-- walk the events with the verdicts the real `IsAdminUser` returned (`c0`/`c1` tokens, `g..`/`p`
+tokens of the raw probes are skipped); every verdict must satisfy `blackboxOK` with respect to what
+the directory offered at the calls so far (theorem `c08_cache_observable` at that prefix) -/
+def judgeTrace (maxDur : Nat) : Nat → List Consult → Nat → List String → List String → String
+  | _, _, _, [], _ => "ok"
+  | now, offered, k, ev :: evs, toks =>
+    match ev.toList with
+    | 'a' :: rest =>
+      match (String.ofList rest).toNat? with
+      | some d => judgeTrace maxDur (now + d) offered k evs toks
+      | none => "bad-op"
+    | 'c' :: rest =>
+      match (String.ofList rest).splitOn ":", toks with
+      | [h, kd], tok :: toks' =>
+        match unhexName h, (if kd == "T" || kd == "G" then some (some true) else if kd == "F" then some (some false)
+                            else if kd == "E" then some none else none),
+              (if tok == "c1" then some true else if tok == "c0" then some false else none) with
+        | some u, some dir, some v =>
+          let offered' := (⟨now, u, dir⟩ : Consult) :: offered
+          if blackboxOK maxDur offered' now u v then judgeTrace maxDur now offered' (k + 1) evs toks'
+          else s!"viol unexplained-verdict call={k} user={hexName u} verdict={boolStr v} t={now - 1700000000000}ms"
+        | _, _, _ => "bad-op"
+      | _, _ => "bad-op"
+    | 'g' :: _ => judgeTrace maxDur now offered k evs (toks.drop 1)
+    | 'p' :: _ => "ok"  -- a raw Put injects a verdict that never came from the directory: not judged further
+    | _ => "bad-op"
+
+def judgeCache : List String → String
+  | ["jc", ms, evs, toks] =>
+    match ms.toNat? with
+    | some ms => judgeTrace ms 1700000000000 [] 0 ((evs.splitOn ",").filter (· ≠ ""))
+                   ((toks.splitOn ",").filter (fun t => t ≠ "" && t ≠ "-"))
+    | none => "bad-op"
+  | _ => "bad-op"
+
 /-- `j <actor> <dirdown> <level> <op> <action> <target> <class> <effect>…` -/
 def judgeStep (st : DState) (fs : List String) : DState × String :=
   match fs with
@@ -199,6 +236,7 @@ def judgeStep (st : DState) (fs : List String) : DState × String :=
         else if cls == "ok" || cls == "reject" || cls == "deny:401" || cls == "deny:403" then (st, "ok")
         else (st, "bad-op")
     | _, _, _, _, _, _ => (st, "bad-op")
+  | "jc" :: _ => (st, judgeCache fs)
   | _ =>
     match cfgStep st fs with
     | some st' => (st', "ok")
